@@ -34,7 +34,9 @@ def main():
                 targs = [a.get('type', {}).get('qualType', '') for a in n.get('inner', []) if a.get('kind') == 'TemplateArgument']
                 want = q2[q2.index('<') + 1:q2.rindex('>')] if '<' in q2 else ''
                 got = ', '.join(cxx2c.strip_ns(a) for a in targs)
-                return (not want) or (not targs) or want == got
+                if (not want) or (not targs) or want == got: return True
+                gl = [cxx2c.strip_ns(a) for a in targs if a]       # template-template arguments carry no type in the dump
+                return bool(gl) and len(gl) < len(targs) and all(g in want for g in gl) and want.endswith(gl[-1])
             def walk(n):
                 if isinstance(n, dict):
                     if n.get('kind') == k2 and n.get('name') == n2 and n.get('completeDefinition') and tr_match(n): ds.append(n)
@@ -68,6 +70,16 @@ def main():
                             if any('(lambda at ' + repo in a for a in targs):
                                 continue   # instantiated on a library-internal lambda: emitted when its caller is
                             if want is None or x.get('name') in want: roots.append(x)
+        ff = cfg.get('free_functions', [])
+        if ff:
+            seen_ids = set()
+            def walkf(n):
+                if isinstance(n, dict):
+                    if n.get('kind') == 'FunctionDecl' and n.get('name') in ff and tr.has_body(n) and any(a.get('kind') == 'TemplateArgument' for a in n.get('inner', [])):
+                        if n['id'] not in seen_ids:
+                            seen_ids.add(n['id']); roots.append(n)
+                    for c in n.get('inner', []): walkf(c)
+            for d in docs: walkf(d)
         tr.run(roots, survey='--survey' in sys.argv)
         if tr.errors:
             print('SURVEY: %d functions with unsupported constructs' % len(tr.errors))
